@@ -103,4 +103,76 @@ theorem step_term_count (cfg : Cfg) (keyOf : Pkt → κ) (lt : κ → κ → Boo
   · omega
   · have := h4 (h2 h0); omega
 
+/-! ### the path without a new-stream callback -/
+
+theorem stepX_of_cbSet (cfg : Cfg) (keyOf : Pkt → κ) (lt : κ → κ → Bool) (F : Follower κ) (p : Pkt) (h : cfg.cbSet = true) :
+    stepX cfg keyOf lt F p = ((step cfg keyOf lt F p).1, (step cfg keyOf lt F p).2, false) := by
+  unfold stepX; simp [h]
+
+theorem runX_of_cbSet (cfg : Cfg) (keyOf : Pkt → κ) (lt : κ → κ → Bool) (h : List Pkt) (F : Follower κ) (hc : cfg.cbSet = true) :
+    (runX cfg keyOf lt F h).1 = (run cfg keyOf lt F h).1 ∧
+    (runX cfg keyOf lt F h).2 = (run cfg keyOf lt F h).2.map (fun evs => (evs, false)) := by
+  induction h generalizing F with
+  | nil => exact ⟨rfl, rfl⟩
+  | cons p ps ih =>
+    unfold runX run
+    simp only [stepX_of_cbSet cfg keyOf lt F p hc]
+    obtain ⟨i1, i2⟩ := ih (step cfg keyOf lt F p).1
+    exact ⟨i1, by rw [i2]; rfl⟩
+
+theorem raw_stream_within (cfg : Cfg) (p : Pkt) : within cfg (Stream.ofPacket cfg.raw p) := by
+  unfold within Stream.chunks Stream.bytes Stream.sacked Stream.ofPacket Flow.configure Flow.init DT.Tracker.init
+  simp [Ack.Tracker.default, wrap32]
+
+theorem stepX_within (cfg : Cfg) (keyOf : Pkt → κ) (lt : κ → κ → Bool) (F : Follower κ) (p : Pkt)
+    (h : ∀ e ∈ F.streams, within cfg e.2) : ∀ e ∈ (stepX cfg keyOf lt F p).1.streams, within cfg e.2 := by
+  unfold stepX
+  split
+  · intro e he
+    rcases mem_store.1 he with h1 | h1
+    · rw [h1]; exact raw_stream_within cfg p
+    · exact h e h1.1
+  · exact step_within cfg keyOf lt F p h
+
+theorem runX_within (cfg : Cfg) (keyOf : Pkt → κ) (lt : κ → κ → Bool) (h : List Pkt) (F : Follower κ)
+    (hF : ∀ e ∈ F.streams, within cfg e.2) : ∀ e ∈ (runX cfg keyOf lt F h).1.streams, within cfg e.2 := by
+  induction h generalizing F with
+  | nil => exact hF
+  | cons p ps ih => unfold runX; exact ih _ (stepX_within cfg keyOf lt F p hF)
+
+theorem stepX_unique (cfg : Cfg) (keyOf : Pkt → κ) (lt : κ → κ → Bool) (F : Follower κ) (p : Pkt) (hu : UniqueKeys F.streams) :
+    UniqueKeys (stepX cfg keyOf lt F p).1.streams := by
+  unfold stepX
+  split
+  · exact unique_store hu _ _
+  · exact step_unique cfg keyOf lt F p hu
+
+theorem runX_unique (cfg : Cfg) (keyOf : Pkt → κ) (lt : κ → κ → Bool) (h : List Pkt) (F : Follower κ)
+    (hu : UniqueKeys F.streams) : UniqueKeys (runX cfg keyOf lt F h).1.streams := by
+  induction h generalizing F with
+  | nil => exact hu
+  | cons p ps ih => unfold runX; exact ih _ (stepX_unique cfg keyOf lt F p hu)
+
+/-- when `callback_not_set` leaves `process_packet` the packet's connection was not live, the packet could start it, and
+    it is live afterwards, held as `Stream(packet)` left it; nothing else changed and no callback was made -/
+theorem stepX_throws_iff (cfg : Cfg) (keyOf : Pkt → κ) (lt : κ → κ → Bool) (F : Follower κ) (p : Pkt) :
+    ((stepX cfg keyOf lt F p).2.2 = true ↔
+      (cfg.cbSet = false ∧ find? F.streams (keyOf p) = none ∧ startable cfg p = true)) ∧
+    ((stepX cfg keyOf lt F p).2.2 = true →
+      (stepX cfg keyOf lt F p).2.1 = [] ∧
+      find? (stepX cfg keyOf lt F p).1.streams (keyOf p) = some (Stream.ofPacket cfg.raw p) ∧
+      ∀ k, k ≠ keyOf p → find? (stepX cfg keyOf lt F p).1.streams k = find? F.streams k) := by
+  unfold stepX creates startable
+  by_cases hc : (!cfg.cbSet && ((find? F.streams (keyOf p)).isNone && (p.syn && !p.ackf || cfg.attach && p.payload.isSome))) = true
+  · simp only [hc, if_true, true_iff, true_imp_iff]
+    simp only [Bool.and_eq_true, Bool.not_eq_true', Option.isNone_iff_eq_none] at hc
+    refine ⟨⟨hc.1, hc.2.1, hc.2.2⟩, ?_, ?_, ?_⟩
+    · trivial
+    · exact find?_store_self _ _ _
+    · exact fun k hk => find?_store_ne _ _ hk
+  · simp only [hc, Bool.false_eq_true, if_false, false_iff, false_imp_iff, and_true]
+    intro ⟨h1, h2, h3⟩
+    apply hc
+    simp [h1, h2, h3]
+
 end Tins.SF
